@@ -296,7 +296,8 @@ CLAIMED["C13"]["text"] += (
 CLAIMED["C14"]["text"] += (
     " For the traces of one function (Model/FuncDef.shrinkTraced = shrink_traced_types): traced_types_depend_on_the_set - two trace "
     "lists with the same members give, for every parameter name and for the return and yield positions, both nothing or == types "
-    "(tied by corr.C14.shrinkTraced).")
+    "(tied by corr.C14.shrinkTraced); definition_params_depend_on_the_set lifts it to the parameters of the whole definition when no "
+    "rewriter is configured.")
 
 NOT_YET = "check not built yet (build in progress; see DESIGN.md section 10)"
 
